@@ -47,6 +47,8 @@ def inventory():
     if INV["inv"] is None and INV["path"] and os.path.exists(INV["path"]):
         INV["inv"] = json.load(open(INV["path"]))
         INV["idx"] = conc.site_index(INV["inv"])
+        if INV.get("optable") is None and INV["inv"].get("optable"):
+            INV["optable"] = INV["inv"]["optable"]
     return INV["inv"]
 
 
@@ -59,7 +61,7 @@ def gen_dataset(rng, kind, small=False):
     per = rng.choice([20, 37]) if small else rng.choice([25, 60, 128])
     n = nrg * per
     base = ["i", "f", "s", "t"]
-    extra = [c for c in ["c", "o"] if rng.random() < (0.5 if small else 0.8)]
+    extra = [c for c in ["c", "o"] if rng.random() < (0.5 if small else 0.8)] + ["b"]
     spec = {"kind": kind, "n": n, "seed": rng.randrange(10 ** 6), "cols": base + extra,
             "offsets": [k * per for k in range(nrg)], "compression": rng.choice([None, None, "SNAPPY", "GZIP"])}
     if kind == "hive":
@@ -149,6 +151,8 @@ def gen_op(rng, spec, kind=None):
             op["categories"] = rng.choice([["c"], {"c": 3}, []])
         if rng.random() < 0.15:
             op["index"] = False
+        if kind == "to_pandas" and op.get("filters") and rng.random() < 0.35:
+            op["row_filter"] = True         # row-level filtering: the selection is computed in a first pass over the filter columns
     if kind in ("slice", "slice_only", "slice_stats"):
         op["i"] = rng.choice([None, 0, 1, -1, rng.randrange(-nrg, nrg + 1)])
         op["j"] = rng.choice([None, 1, 2, -1, rng.randrange(-nrg, nrg + 1)])
@@ -312,8 +316,8 @@ def run(ctx):
     op_table_tie(ctx, fp_state)
     pq.close()
     lap("footprint_check")
-    if ctx.broken and not ctx.failures:
-        # the premise is broken but no failing schedule was met yet: search harder (storm with the raised budget)
+    if (ctx.broken or INV.get("advisory_failed")) and not ctx.failures:
+        # the premise (or a static clause) is broken but no failing schedule was met yet: search harder (storm with the raised budget)
         base["broken"] = True
         extra = [dict(base, phase="storm", datasets=[d], share=len(datasets), tag="b%d" % di) for di, d in enumerate(datasets)]
         seen_t = set()
@@ -344,6 +348,32 @@ def run(ctx):
                               tag="t%d" % len(seen_t)))
         apply_jobs(ctx, extra, jt)
         lap("search_after_broken_premise")
+    if INV.get("advisory_failed"):
+        for a_ in ctx.extra.get("static_advisories", []):
+            a_["divergent_run_found"] = bool(ctx.failures)
+        if not ctx.failures:
+            ctx.notes.append("static advisory (not a violation by itself): %s - the site search and the schedules of this run met no divergent run" % json.dumps(
+                [a_["first_failing_clause"] for a_ in ctx.extra.get("static_advisories", [])]))
+
+
+def advisory_file(ctx, path, extra_q, what):
+    """a genproof file whose theorems are STATIC clauses: obligations while they hold; when one no longer holds it is recorded
+    as an advisory, the search for a divergent run is started, and only such a run makes the check report a violation"""
+    import time
+    names = C.theorem_names(path)
+    t = time.time()
+    ok, out = C.coqc(path, extra_q=extra_q)
+    ctx.checker_cmds.append("coqc -Q coq/theories Pq %s%s  (%.1fs, static clauses: advisory when broken)" % (
+        "".join("-Q %s %s " % (os.path.relpath(d, C.VERIF), n) for d, n in extra_q), os.path.relpath(path, C.VERIF), time.time() - t))
+    if ok:
+        for n in names:
+            ctx.obligation(n, True)
+        ctx.assumptions += ["%s: %s" % (os.path.basename(path), a) for a in C.parse_assumptions(out)]
+    else:
+        bad = C.failing_theorem(path, out)
+        ctx.extra.setdefault("static_advisories", []).append({"file": os.path.basename(path), "first_failing_clause": bad, "what": what})
+        INV["advisory_failed"] = True
+    return ok
 
 
 def static_inventory(ctx):
@@ -368,10 +398,20 @@ def static_inventory(ctx):
     ctx.coq_file(os.path.join(C.COQ, "genproofs", "GenSharedInvProofs.v"), extra_q=[(ctx.gen_dir, "PqGen")])
     bad = [s_ for s_ in inv["sites"] if not s_["import_time"] and s_["base"] in ("global", "default", "classattr")
            and s_["pattern"] in ("augmented", "rmw", "set_restore", "multi_store", "delete", "mutcall")]
+    keybad = [c_ for c_ in inv.get("memo_keys", []) if not (c_["names_ok"] and c_["key_pure"])]
+    advisory_file(ctx, os.path.join(C.COQ, "genproofs", "GenSharedInvAdvisory.v"), [(ctx.gen_dir, "PqGen")],
+                  {"refuted_pattern_on_static_shared_base": [{k: s_[k] for k in ("file", "line", "func", "pattern", "base_name", "target")} for s_ in bad][:10],
+                   "memo_key_does_not_determine_value": [{k: c_[k] for k in ("file", "line", "func", "container", "key", "extra_deps", "impure")} for c_ in keybad][:10]})
+    for c_ in keybad:               # the store site of an offending keyed memo is a search target too
+        for s_ in inv["sites"]:
+            if s_["file"] == c_["file"] and s_["line"] <= c_["line"] <= s_["end_line"] and s_ not in bad:
+                bad.append(s_)
+                break
     ctx.extra["inventory"] = {"locations": len(inv["locations"]), "sites": len(inv["sites"]),
                               "sites_on_static_shared_bases": sum(1 for s_ in inv["sites"] if s_["base"] in ("global", "default", "classattr") and not s_["import_time"]),
                               "patterns": {p_: sum(1 for s_ in inv["sites"] if s_["pattern"] == p_) for p_ in sharedstate.PATTERNS},
-                              "static_offenders": [{k: s_[k] for k in ("file", "line", "func", "pattern", "base", "base_name", "target")} for s_ in bad][:20]}
+                              "static_offenders": [{k: s_[k] for k in ("file", "line", "func", "pattern", "base", "base_name", "target")} for s_ in bad][:20],
+                              "keyed_memos": [{k: c_[k] for k in ("file", "line", "container", "key", "names_ok", "key_pure")} for c_ in inv.get("memo_keys", [])][:20]}
     INV["static_bad"] = bad
     # read side: per operation the slots it may read / write (call graph by name), the discipline obligation over reads AND
     # writes re-proved on the regenerated table (C20_api_ops_disciplined on the regenerated table)
@@ -384,9 +424,16 @@ def static_inventory(ctx):
             ctx.notes.append("translator_fallback: opreads: generated file rejected by coqc: %s" % out2[-300:])
             ctx.extra["translator"]["opreads"]["status"] = "translator_fallback"
         else:
-            ctx.coq_file(os.path.join(C.COQ, "genproofs", "GenOpReadsProofs.v"), extra_q=[(ctx.gen_dir, "PqGen")])
             tab = ores["table"]
+            # HARD: table_disciplined is the premise C20_table_ops_disciplined / _confluent are instantiated with on the regenerated
+            # table; when it no longer checks the property is no longer shown to hold (VIOLATION, concrete if the search finds a run)
+            ok3, _ = ctx.coq_file(os.path.join(C.COQ, "genproofs", "GenOpReadsProofs.v"), extra_q=[(ctx.gen_dir, "PqGen")])
+            if not ok3:
+                ctx.extra["op_table_offenders"] = ores["offenders"][:12]
             INV["optable"] = tab
+            d_ = json.load(open(INV["path"]))         # the workers need the read sets too (unread locations are volatile)
+            d_["optable"] = {"rows": [{"op": r_["op"], "reads": r_["reads"]} for r_ in tab["rows"]]}
+            json.dump(d_, open(INV["path"], "w"))
             ctx.extra["op_table"] = {"rows": {r_["op"]: {"functions": r_["functions"], "reads": len(r_["reads"]),
                                                         "writes": sorted(set("%s:%s" % (w_["slot"], w_["pattern"]) for w_ in r_["writes"]))[:30]}
                                               for r_ in tab["rows"]},
@@ -650,6 +697,8 @@ FIXED_OPS = [
     {"op": "sorted_cols"},
     {"op": "filter_rgs", "filters": [["f", "<", 40.0], ["i", ">=", 0]]},
     {"op": "meta"},
+    {"op": "to_pandas", "columns": ["i", "f"], "filters": [["i", ">", 30], ["f", "<", 1000.0]], "row_filter": True},
+    {"op": "to_pandas", "columns": ["s"], "filters": [["i", "<=", 45]], "row_filter": True},
     {"op": "copy", "columns": ["i"]},
     {"op": "deepcopy", "columns": ["s"], "filters": [["i", "<=", 25]]},
 ]
@@ -706,7 +755,10 @@ def footprint_jobs(ctx, datasets, rng, quick):
     for di, (spec, path) in enumerate(datasets):
         ops = fixed_ops(spec)
         ops += [gen_op(rng, spec) for _ in range(2 if quick else 6)]
-        fresh_ops = ops if (di == 0 or not quick) else [o for o in ops if o["op"] not in ("stats_fn", "meta", "filter_rgs", "deepcopy") and o != {"op": "sorted_cols"}]
+        # quick: the whole fixed list on fresh handles for the first dataset; for the others the family members that differ by
+        # dataset kind only (warm handles and forced / storm / stress schedules still use every operation on every dataset)
+        fresh_ops = ops if (di == 0 or not quick) else [o for o in ops if o["op"] not in ("stats_fn", "meta", "filter_rgs", "deepcopy", "copy", "schema_text", "columns")
+                                                        and o != {"op": "sorted_cols"} and not (o.get("row_filter") and o.get("columns") == ["s"])]
         for i in range(0, len(fresh_ops), 3):
             jobs.append(mk(path, "fresh", fresh_ops[i:i + 3]))
             owner.append(di)
@@ -726,6 +778,8 @@ def footprint_jobs(ctx, datasets, rng, quick):
         # in the thorough tier for all
         short = [o for o in ops if o["op"] in ("slice_only", "count", "statistics", "columns", "head", "schema_text", "sorted_cols", "meta")]
         osel = (short[:3] + short[-2:]) if (quick or spec["kind"] == "file") else (short + [o for o in ops if o["op"] in ("slice", "pickle", "index")][:4] + ops[1:3])
+        if quick and di > 0:
+            osel = osel[:2]             # instruction-granular traces are the most expensive jobs: the full short list for the first dataset only
         for i in range(0, len(osel), 3):
             jobs.append(mk(path, "fresh-opcode", osel[i:i + 3]))
             owner.append(di)
@@ -747,6 +801,7 @@ def footprint_premise(ctx, pq, datasets, jobs, results, state):
                 continue
             phase = job["fp_phase"]
             for ri, (op, got, changes, nlines, scr, want, evs, cover, areads) in enumerate(res_list):
+                changes, evs = drop_unread(ctx, changes, evs)
                 all_events.append((phase, op, evs))
                 if areads:
                     state.setdefault("attr_reads", {}).setdefault(ROW_OF.get(op["op"], op["op"]), set()).update(areads)
@@ -812,6 +867,53 @@ def footprint_premise(ctx, pq, datasets, jobs, results, state):
         ctx.extra["memo_keys_written"] = sorted(seen)[:60]
 
 
+VOLATILE_PREFIXES = conc.SCRATCH_PREFIXES
+
+
+def unread_slot(key, attrs=True):
+    """A location that NO operation of the regenerated op table reads (its slot - module-global name or handle attribute - is in no
+    row's read set) is of class Multi in the classification the table induces (Conc/OpTable.cls_tbl): whatever is written there,
+    no result depends on it (a call counter, a debugging attribute).  Such locations are volatile for the monitor: recorded, not
+    constrained.  Only module-level names and attributes of the handle are ever classified this way."""
+    tab = INV.get("optable")
+    if tab is None:
+        return None
+    reads = INV.get("all_reads")
+    if reads is None:
+        reads = INV["all_reads"] = set(x for r_ in tab["rows"] for x in r_["reads"])
+    parts = key.split("/")
+    if key.startswith("/@module/") and len(parts) >= 4 and ":" not in parts[2]:
+        slot = parts[3]
+    elif attrs and len(parts) >= 2 and parts[1] and not parts[1].startswith("@") and parts[1] != "fmd" and parts[1].isidentifier():
+        slot = parts[1]
+    else:
+        return None
+    if slot in reads or (slot + "[*]") in reads or slot in ("#", "@"):
+        return None
+    return slot
+
+
+def drop_unread(ctx, changes, evs, attrs=True):
+    """remove the unread (volatile) locations from the snapshots and events of one trace; -> (changes, evs)"""
+    hit = {}
+    out = []
+    for tag, fp in changes:
+        fp2 = {}
+        for k_, v_ in fp.items():
+            sl = unread_slot(k_, attrs)
+            if sl is None:
+                fp2[k_] = v_
+            else:
+                hit[sl] = hit.get(sl, 0) + 1
+        if not out or fp2 != out[-1][1]:
+            out.append((tag, fp2))
+    if hit:
+        d = ctx.extra.setdefault("unread_locations_written_or_held", {})
+        for sl in hit:
+            d[sl] = d.get(sl, 0) + 1
+    return out, [e_ for e_ in evs if unread_slot(e_[0], attrs) is None]
+
+
 ROW_OF = {"index": "slice", "slice_only": "slice", "slice_stats": "slice", "deepcopy": "copy"}
 
 
@@ -832,6 +934,26 @@ def op_table_tie(ctx, state):
             if a_ not in rows[opk] and (a_ + "[*]") not in rows[opk]:
                 missing.append("%s.%s" % (opk, a_))
     ctx.extra.setdefault("op_table", {})["dynamic_attribute_loads_checked"] = n
+    # ... and every package function a traced operation executes is in the reachable set of its row (safety net of the pruning)
+    reach = {r_["op"]: set(r_.get("reach", [])) for r_ in tab["rows"]}
+    ranges = tab.get("func_ranges", {})
+    unreached, nf = set(), 0
+    for (fn_, ln_), users in (state.get("covered") or {}).items():
+        best = None
+        for a_, z_, q_ in ranges.get(fn_, ()):
+            if a_ <= ln_ <= z_ and (best is None or z_ - a_ < best[0]):
+                best = (z_ - a_, q_)
+        if best is None:
+            continue
+        for (di_, op_, ph_) in users:
+            row = ROW_OF.get(op_["op"], op_["op"])
+            if row in reach:
+                nf += 1
+                if best[1] not in reach[row]:
+                    unreached.add("%s executes %s" % (row, best[1]))
+    ctx.extra["op_table"]["executed_lines_checked"] = nf
+    ctx.obligation("op table tie: every package function executed by a traced operation is in the reachable set of its row",
+                   not unreached, "executed but not reachable in the regenerated call graph: %s" % sorted(unreached)[:12])
     ctx.obligation("op table tie: every attribute loaded by a traced operation is in the regenerated read set of its row (%d loads of %d rows)" % (n, len(dyn)),
                    not missing, "loaded at run time but not in the static read set: %s" % missing[:15])
 
@@ -859,6 +981,14 @@ def footprint_events(ctx, di, all_events, targets):
     if out is None:
         ctx.obligation("footprint condition [ds%d]: extracted checker answered" % di, False, "pqref conc_footprint_check timed out or died")
         return
+    # declared VOLATILE locations (class Multi of C20_footprint_confluence: no operation's result depends on them): their events
+    # are not constrained; the extracted footprint_ok_vol must agree with footprint_ok on the rest
+    vol_ids = [i_ for k_, i_ in keys.items() if k_.lstrip("/").startswith(VOLATILE_PREFIXES)]
+    ctx.extra["volatile_locations_declared"] = ["%s* (per-call output attribute of to_pandas; class Multi)" % p_ for p_ in VOLATILE_PREFIXES]
+    if flat:
+        outv = pq_once(("conc_footprint_check_vol", flat, vol_ids), 300)
+        ctx.correspondence("footprint_ok_vol (volatile locations excluded) ~ footprint_ok on the presence-masked events",
+                           {"dataset": di, "volatile_keys": len(vol_ids)}, None if outv is None else bool(outv[0]), bool(out[0]))
     ok_model = bool(out[0])
     if len(out) > 2:
         kd = ctx.extra.setdefault("observed_event_kinds", {"publish": 0, "same": 0, "change": 0, "remove": 0})
@@ -1184,6 +1314,19 @@ def site_search(ctx, datasets, rng, quick, target):
             if check_pair(ctx, spec, path, solo, [a, b], plan, "site-double", opc):
                 ctx.extra["site_search_runs"] = ctx.extra.get("site_search_runs", 0) + runs
                 return
+    # a reader that issues its operation TWICE on the shared handle (the second pass meets what the first cached), preempted after
+    # its j-th bytecode instruction at a statement that mentions the location; the writer runs completely in the gap
+    if OPC["ok"]:
+        clock = Clock(ctx, "site_search", 150 if quick else 900)
+        for fn_b, ln_b, b in target.get("readers_at", []):
+            b2 = {"op": "seq", "ops": [b, b]}
+            for j in range(1, 41):
+                if clock.over():
+                    break
+                runs += 1
+                if check_pair(ctx, spec, path, solo, [a, b2], [[1, j, "in", fn_b, ln_b], [0, BIG, "lines"], [1, BIG, "lines"]], "site-seq", [False, True]):
+                    ctx.extra["site_search_runs"] = ctx.extra.get("site_search_runs", 0) + runs
+                    return
     for b in readers:
         plans = [([[0, n, "left", file, line], [1, BIG, "lines"]], False) for n in (1, 2, 3)]
         if OPC["ok"]:
@@ -1288,7 +1431,8 @@ def storm_search(ctx, datasets, rng, quick, share=None):
         # the cheap derived-handle operation against the small readers always; statistics use through the module-level
         # functions; two reads of different columns (per-call file handles: one shared file position would mix them up)
         cols_ = [c for c in spec.get("cols", []) if c in ("i", "f", "s")] or list(spec.get("cols", []))
-        two_reads = ({"op": "to_pandas", "columns": cols_[:1]}, {"op": "to_pandas", "columns": cols_[1:2] or cols_[:1]})
+        extra_b = ["b"] if "b" in spec.get("cols", []) else []      # (bit-packed booleans: both readers decode them)
+        two_reads = ({"op": "to_pandas", "columns": cols_[:1] + extra_b}, {"op": "to_pandas", "columns": (cols_[1:2] or cols_[:1]) + extra_b})
         always = [(writers[2], readers[1]), (writers[0], readers[4])]
         if spec["kind"] != "file":
             always += [(writers[6], {"op": "statistics"}), two_reads]
@@ -1431,7 +1575,8 @@ def part_writers(ctx, pq, rng, quick):
             inventory()
             evs = []
             for ch in res["trace"]:
-                evs += conc.trace_events(ch, INV["idx"] or {})
+                ch2, _ = drop_unread(ctx, ch, [], attrs=False)      # (the root is the shared thrift object: no handle attributes)
+                evs += conc.trace_events(ch2, INV["idx"] or {})
             on_shared = [e for e in evs if not e[0].startswith("/@module/")]
             on_module = [e for e in evs if e[0].startswith("/@module/")]
             ctx.obligation("ownership premise [part writers, round %d]: make_part_file performs no write on the shared schema/metadata" % r,
